@@ -64,6 +64,12 @@ Theorem C03_static_is_callable_time : forall C u p t id, u_time u = UStatic t ->
   perform_update C u p = perform_update C (mkUpd (UCall id) (u_meas u) (u_tags u) (u_fields u) (u_unset_fields u) (u_unset_tags u)) p.
 Proof. exact static_is_constant_callable_time. Qed.
 
+(* a static update (no callables) applied to the point it produced changes nothing: applying it twice is applying it once *)
+Theorem C03_static_update_idempotent : forall C u p p', static_update u -> wf_point p ->
+  perform_update C u p = UOk p' -> perform_update C u p' = UOk p'.
+Proof. exact static_update_idempotent. Qed.
+
+Print Assumptions C03_static_update_idempotent.
 Print Assumptions C03_update_exact.
 Print Assumptions C03_merge_key_by_key.
 Print Assumptions C03_unset_removes_keys.
